@@ -1,6 +1,6 @@
 /-
-  Invariants of the concurrent queue model for programs WITHOUT `processIf` (non-selective
-  consumers): nothing is ever put back, so
+  Invariants of the concurrent queue model for programs WITHOUT `processIf` and WITHOUT
+  `processUntil` (non-selective consumers): nothing is ever put back, so
 
   * `NoIfInv`  : every processing call has mode 0/1, `kept = []`, and never reaches `procPutBack`
                  (nor the two pcs after it, `procPbReadNc` / `procPbNotify`)
@@ -14,7 +14,13 @@ import EventppVerif.Conc.QueueInvA
 namespace Evp.Conc
 open List
 
-def NoIf (progs : List (List Call)) : Prop := ∀ p ∈ progs, ∀ c ∈ p, ∀ k, c ≠ Call.processIf k
+/-- no call of the family puts events back: neither `processIf` nor `processUntil` occurs
+    (before `processUntil` was modelled this said "no `processIf`"; `processUntil` is excluded for the
+    same reason: its put-back breaks `QRange`, and with several consumers also the per-thread order —
+    `C06_processUntil_two_consumers_out_of_order`.  Programs WITH `processUntil` are covered by the
+    single-consumer theory, Conc/QueueInvC.lean) -/
+def NoIf (progs : List (List Call)) : Prop :=
+  ∀ p ∈ progs, ∀ c ∈ p, ∀ k, c ≠ Call.processIf k ∧ c ≠ Call.processUntil k
 
 def pcOK : PC → Prop
   | .procPre m => m ≤ 1
@@ -35,7 +41,8 @@ theorem pcOK_procPutBack (kept : List Nat) (any : Bool) : pcOK (.procPutBack kep
 theorem pcOK_procPbReadNc (any : Bool) : pcOK (.procPbReadNc any) = False := rfl
 theorem pcOK_procPbNotify (any : Bool) : pcOK (.procPbNotify any) = False := rfl
 
-def thOK (th : Thread) : Prop := (∀ c ∈ th.prog, ∀ k, c ≠ Call.processIf k) ∧ pcOK th.pc
+def thOK (th : Thread) : Prop :=
+  (∀ c ∈ th.prog, ∀ k, c ≠ Call.processIf k ∧ c ≠ Call.processUntil k) ∧ pcOK th.pc
 
 def NoIfInv (s : State) : Prop := ∀ (u : Nat) thu, s.threads[u]? = some thu → thOK thu
 
@@ -43,6 +50,12 @@ theorem keepPred_le_one {m e : Nat} (h : m ≤ 1) : keepPred m e = false := by
   unfold keepPred
   have h2 : ¬ m = 2 := by omega
   have h3 : ¬ m = 3 := by omega
+  simp [h2, h3]
+
+theorem stopPred_le_one {m e : Nat} (h : m ≤ 1) : stopPred m e = false := by
+  unfold stopPred
+  have h2 : ¬ m = 4 := by omega
+  have h3 : ¬ m = 5 := by omega
   simp [h2, h3]
 
 theorem noIf_self {s : State} {t ch : Nat} {s' : State} (h : step s t ch = some s') (th : Thread)
@@ -73,7 +86,9 @@ theorem noIf_self {s : State} {t ch : Nat} {s' : State} (h : step s t ch = some 
     first
     | exact ⟨hprog, by omega⟩
     | exact ⟨hprog, by omega, trivial⟩
-    | (exfalso; rename_i heq; rw [heq] at hprog; exact hprog _ (List.mem_cons_self ..) _ rfl)
+    | (exfalso; rename_i heq; rw [heq] at hprog; exact (hprog _ (List.mem_cons_self ..) _).1 rfl)
+    | (exfalso; rename_i heq; rw [heq] at hprog; exact (hprog _ (List.mem_cons_self ..) _).2 rfl)
+    | (exfalso; rename_i hk; rw [stopPred_le_one (And.left hpc')] at hk; cases hk)
     | (exfalso; rename_i hk; rw [keepPred_le_one (And.left hpc')] at hk; cases hk)
     | (exfalso; rename_i hk; rw [(And.right hpc')] at hk; exact hk rfl)
 
